@@ -200,20 +200,31 @@ def r07b(ctx):
             if ok:
                 flag = ('attr', SELF, cap_attr)
                 pol = [v for a, v in p.assumptions if a == flag]
-                tail = [e for e in p.events[i_conv:] if e.kind == 'call' and
-                        method_call(e.data[0]) and method_call(e.data[0])[1] in ('train', 'eval')
-                        and not method_call(e.data[0])[2]]
-                recvs = {(show(method_call(e.data[0])[0]), method_call(e.data[0])[1])
-                         for e in tail}
-                if pol == [True]:
-                    want = {('self', 'train'), ('self.seed', 'train')}
-                elif pol == [False]:
-                    want = {('self', 'eval'), ('self.seed', 'eval')}
-                else:
-                    want = None
-                ok = want is not None and want <= recvs and \
-                    not any(m != list(want)[0][1] for _, m in recvs)
-                msg = f'ends with {sorted(recvs)} under {cap_attr}={pol}'
+                # last recursive mode switch on the wrapper after the conversion:
+                # train() / eval() / train(mode); self.seed is a child of self, so a switch on
+                # self reaches it; a switch on self.seed alone leaves the wrapper's own flag
+                final = {}
+                for e in p.events[i_conv:]:
+                    mc = method_call(e.data[0]) if e.kind == 'call' else None
+                    if mc and mc[1] in ('train', 'eval'):
+                        recv = show(mc[0])
+                        if mc[1] == 'eval':
+                            mode = ('const', False)
+                        else:
+                            mode = mc[2][0] if mc[2] else arg(e.data[0], None, 'mode') or \
+                                ('const', True)
+                        final[recv] = mode
+
+                def good(mode):
+                    if mode == flag or mode == ('attr', model, 'training') and False:
+                        return True
+                    if mode[0] == 'const' and pol in ([True], [False]):
+                        return mode[1] is pol[0]
+                    return False
+                ok = 'self' in final and good(final['self']) and \
+                    all(good(mv) for r, mv in final.items() if r in ('self', 'self.seed'))
+                msg = (f'ends with {sorted((r, show(mv)) for r, mv in final.items())} under '
+                       f'{cap_attr}={pol}')
             lblp = f'path {k}'
             ctx.ob('R07b', f'{wname}.__init__ restores the training mode [{lblp}]', ok,
                    msg if ok else
